@@ -61,7 +61,13 @@ func (cs *clientState) watchesOtherDb(ds *dataStore) bool {
 // (WATCH, then SELECT) are examined under that database's own lock; the caller
 // must hold multiDataStoreLock in that case (two database locks at once).
 func isAbortedExecUnlocked(cs *clientState, locked *dataStore) bool {
-	for watch, id := range cs.watches {
+	for _, watch := range simKeys(cs.watches, func(a, b watchKey) bool {
+		if a.key != b.key {
+			return a.key < b.key
+		}
+		return simOrdinal(a.ds) < simOrdinal(b.ds)
+	}) {
+		id := cs.watches[watch]
 		if watch.ds == locked {
 			// caller holds exclusive lock, so go directly to the data store for this check
 			if watch.ds.hasChangedUnlocked(watch.key, id) {
